@@ -82,6 +82,10 @@ def main():
             count('abnormal-exit')
         for k in (1, 2):
             if res[k] != res[0]:
+                # confirm sequentially (a loaded machine can time a run out): the difference must show again
+                again = [compile_with(d, f, opts) for _, d in stages]
+                if again[k] == again[0]: count('unconfirmed-difference'); continue
+                res = again
                 what = 'exit status' if res[k][0] != res[0][0] else 'output bytes' if res[k][1] != res[0][1] else 'diagnostics'
                 run.violation(dict(kind='stages-differ', input=open(f, 'rb').read().decode('latin-1')[:3000] if f.startswith(wd) else os.path.relpath(f, s1), options=opts, differing=what, stage='stage%d' % (k + 1),
                                    stage1=dict(exit=res[0][0], stderr=res[0][2][:300]), other=dict(exit=res[k][0], stderr=res[k][2][:300]),
@@ -99,6 +103,8 @@ def main():
     for (f, opts), a, b, c in pmap(one_det, det_inputs):
         evals += 1; nontriv += 1; count('determinism')
         if a != b or a != c:
+            a2 = compile_with(s2, f, opts); b2 = compile_with(s2, f, opts, setarch=True); c2 = compile_with(s2, f, opts, cwd='/')
+            if a2 == b2 == c2 == a: count('unconfirmed-difference'); continue
             run.violation(dict(kind='output-depends-on-process', input=os.path.basename(f), options=opts, differs='without ASLR' if a != b else 'from another working directory'), dict(area='determinism', construct='aslr-cwd'))
 
     # ---------------- transfer: the other properties' correspondences against stage 2 ----------------
@@ -108,9 +114,11 @@ def main():
     def one_sub(pid):
         rc, o, e = sh([sys.executable, os.path.join(VERIF, 'tools', 'check_%s.py' % pid.lower()), 'quick'], env=env, timeout=1500)
         return pid, rc, o, e
-    for pid, rc, o, e in pmap(one_sub, subs, workers=4):
+    for pid, rc, o, e in pmap(one_sub, subs, workers=3):
         evals += 1; nontriv += 1; count('transfer-' + pid)
         if rc != 0:
+            pid, rc, o, e = one_sub(pid)          # once more, alone
+            if rc == 0: count('unconfirmed-difference'); continue
             vio = [l for l in o.split('\n') if l.startswith('VIOLATION')]
             run.violation(dict(kind='correspondence-fails-for-self-compiled-compiler', property=pid, lines=vio[:4], tail=(o + e)[-600:],
                                how='VERIF_STAGE=2 (or VERIF_PREBUILT=<stage-2 directory>) ./check %s quick: the proved model of %s no longer matches the compiler when that compiler was built by chibicc itself' % (pid, pid)),
